@@ -30,7 +30,7 @@ def main():
         if r.error:
             print("   ERROR:", r.error)
         for v in r.violations:
-            print("   VIOLATION", v["label"], v["witness"])
+            print("   VIOLATION", v["label"], v["witness"], r.notes)
     from pysym import engine as EE
     if EE.FORKSITES:
         for k, v in sorted(EE.FORKSITES.items(), key=lambda kv: -kv[1])[:15]:
